@@ -168,7 +168,7 @@ def pTo {α : Type} (f : α → Sexp) : Except Panic α → Sexp
   | .error e => .list [.atom "panic", .atom (identPanic e)]
 
 def exXName : ExX → String
-  | .recordNotFound => "recordNotFound" | .noVariant => "noVariant" | .diverged => "diverged"
+  | .importPath => "importPath" | .recordNotFound => "recordNotFound" | .noVariant => "noVariant" | .diverged => "diverged"
   | .ident p => "ident:" ++ identPanic p
 
 def exampleTo (e : ExampleSum) : Sexp :=
